@@ -7,7 +7,7 @@
    Layer 2 (Coq.Reals axioms): K := R, n := sqrt (sum of squares) — the property as worded.
    Layer 3: the executable instance (Qc, exact partial rational root qsqrt) meets the hypotheses of
    layer 1, and qsqrt is the real square root where defined (bridge). *)
-From DF Require Import Prelude FieldK NDArray Region Mesh Norm C15_cell C15_qsqrt C15_real C15_exec Check_C15.
+From DF Require Import Prelude FieldK NDArray Region Mesh Norm C15_cell C15_qsqrt C15_real C15_exec Check_C15 CheckSound C15_sound.
 From Coq Require Import Qcanon Reals.
 
 (* ===== layer 1: any field, squared form ===== *)
@@ -334,3 +334,140 @@ Print Assumptions C15_threshold_is_binary64_1e_8.
 Example C15_qsqrt_partial_nonvacuous : (qsqrt 2 = None /\ qsqrt (9 # 4) = Some (3 # 2))%Q.
 Proof. exact w_qsqrt_partial. Qed.
 Print Assumptions C15_qsqrt_partial_nonvacuous.
+
+(* ===== checker soundness and transfer: the theorems above, stated about the OBSERVED outputs ===== *)
+Open Scope Q_scope.
+
+(* an accepted history case: the model run succeeds and the observed array / validity / norm field /
+   orientation field are its values (verbatim data: equal; quotients: within 1e-13 of the cell's size;
+   lengths: within 1e-15 resp. 1e-13 relative) *)
+Theorem C15_check_history_sound : forall p1 p2 n_ nvdim unit_ vals norm0 v0 ops o,
+  check_C15 (CHist p1 p2 n_ nvdim unit_ vals norm0 v0 ops (Some o)) = true ->
+  exists m f,
+    build p1 p2 n_ = OK m /\ nvdim <> 0%nat /\
+    run_ops (K:=QcOps) qc_nrm qc_is0 qc_close0 (blank QcOps m nvdim unit_) (model_ops nvdim vals norm0 v0 ops) = OK f /\
+    all_defined f = true /\
+    (if approx_of norm0 ops
+     then Forall2 (cell_within tolx) (f_arr f) (cells_of nvdim (o_arr o))
+     else f_arr f = map qcl (cells_of nvdim (o_arr o))) /\
+    o_valid o = f_valid f /\
+    Forall2 (fun v x => Qabs (this (qc_nrm v) - x)
+                        <= (if approx_of norm0 ops then tolx else tolu) * this (qc_nrm v))
+            (f_arr f) (o_norm o) /\
+    o_norm_nvdim o = 1%nat /\ o_norm_n o = n m /\
+    Forall2 Qeq (pmin (reg m)) (o_norm_pmin o) /\ Forall2 Qeq (pmax (reg m)) (o_norm_pmax o) /\
+    o_norm_unit o = unit_ /\ o_norm_valid o = o_valid o /\
+    Forall2 (cell_within tolx) (map (fun v => unit_cell (K:=QcOps) qc_close0 (qc_nrm v) v) (f_arr f))
+            (cells_of nvdim (o_orient o)) /\
+    o_orient_nvdim o = nvdim /\ o_orient_valid o = o_valid o.
+Proof. exact check_hist_sound. Qed.
+Print Assumptions C15_check_history_sound.
+
+(* an accepted "raised" case: the model history fails too *)
+Theorem C15_check_history_raises_sound : forall p1 p2 n_ nvdim unit_ vals norm0 v0 ops,
+  check_C15 (CHist p1 p2 n_ nvdim unit_ vals norm0 v0 ops None) = true ->
+  exists m, build p1 p2 n_ = OK m /\
+    (nvdim = 0%nat \/
+     exists e, run_ops (K:=QcOps) qc_nrm qc_is0 qc_close0 (blank QcOps m nvdim unit_)
+                       (model_ops nvdim vals norm0 v0 ops) = Err e).
+Proof. exact check_hist_raises_sound. Qed.
+Print Assumptions C15_check_history_raises_sound.
+
+(* an accepted relational case (arbitrary binary64 vectors), per cell *)
+Theorem C15_check_relational_sound : forall nvdim vals ts obs_norm obs_set obs_orient,
+  check_C15 (CRel nvdim vals ts obs_norm obs_set obs_orient) = true ->
+  nvdim <> 0%nat /\
+  length (cells_of nvdim vals) = length ts /\ length obs_norm = length ts /\
+  length (cells_of nvdim obs_set) = length ts /\ length (cells_of nvdim obs_orient) = length ts /\
+  forall j, (j < length ts)%nat ->
+    let v := nth j (cells_of nvdim vals) [] in
+    let x := nth j obs_norm 0 in
+    let vset := nth j (cells_of nvdim obs_set) [] in
+    0 <= x /\ Qabs (x * x - sumsq_q v) <= 2 * tolr * sumsq_q v /\
+    (sumsq_q v == 0 -> Forall (fun c => c == 0) vset /\ length vset = length v).
+Proof. exact check_rel_sound. Qed.
+Print Assumptions C15_check_relational_sound.
+
+(* a whole shard: no failing index means every case was accepted *)
+Theorem C15_shard_verdict : forall cases k,
+  failing k (map check_C15 cases) = [] -> forall c, In c cases -> check_C15 c = true.
+Proof. exact (failing_nil_all check_C15). Qed.
+Print Assumptions C15_shard_verdict.
+
+(* transfer of C15_not_sticky: whatever norm was given to the constructor or assigned earlier, the array
+   OBSERVED after update_field_values is the data that was passed in *)
+Theorem C15_accepted_not_sticky : forall p1 p2 n_ nvdim unit_ vals norm0 v0 os vals' o,
+  check_C15 (CHist p1 p2 n_ nvdim unit_ vals norm0 v0 (os ++ [PUpdate vals']) (Some o)) = true ->
+  map qcl (cells_of nvdim (o_arr o)) = map qcl (cells_of nvdim vals').
+Proof. exact accepted_not_sticky. Qed.
+Print Assumptions C15_accepted_not_sticky.
+
+(* transfer of C15_constructor_order / C15_constructor_validity_after_norm / C15_constructor_without_norm_verbatim:
+   with valid="norm" and no norm argument the OBSERVED array is the input and the OBSERVED validity mask is the
+   threshold decision on the exact lengths of the OBSERVED array *)
+Theorem C15_accepted_constructor_validity : forall p1 p2 n_ nvdim unit_ vals o,
+  check_C15 (CHist p1 p2 n_ nvdim unit_ vals None VNorm [] (Some o)) = true ->
+  map qcl (cells_of nvdim (o_arr o)) = map qcl (cells_of nvdim vals) /\
+  o_valid o = map (fun v => negb (qc_close0 (qc_nrm v))) (map qcl (cells_of nvdim (o_arr o))).
+Proof. exact accepted_constructor_validity. Qed.
+Print Assumptions C15_accepted_constructor_validity.
+
+(* transfer of C15_norm_field / C15_exec_length_spec (verbatim data): the OBSERVED norm field has one component,
+   the field's unit and validity, and every OBSERVED length is within 1e-15 relative of the non-negative number
+   whose square is the exact sum of squares of the OBSERVED cell *)
+Theorem C15_accepted_norm_getter : forall p1 p2 n_ nvdim unit_ vals norm0 v0 ops o,
+  check_C15 (CHist p1 p2 n_ nvdim unit_ vals norm0 v0 ops (Some o)) = true ->
+  approx_of norm0 ops = false ->
+  o_norm_nvdim o = 1%nat /\ o_norm_unit o = unit_ /\ o_norm_valid o = o_valid o /\
+  Forall2 (fun (v : list Qc) (x : Q) =>
+             exists l : Qc, Qcmult l l = sumsq QcOps v /\ 0 <= this l /\ Qabs (this l - x) <= tolu * this l)
+          (map qcl (cells_of nvdim (o_arr o))) (o_norm o).
+Proof. exact accepted_norm_getter. Qed.
+Print Assumptions C15_accepted_norm_getter.
+
+(* transfer of C15_orientation_zero / C15_orientation_unit_sq / C15_orientation_times_norm (verbatim data):
+   a cell of the OBSERVED array whose exact length is within the isclose threshold has an exactly zero OBSERVED
+   orientation; any other cell's OBSERVED orientation is within 1e-13 of a vector u with |u|^2 = 1, u * |v| = v *)
+Theorem C15_accepted_orientation : forall p1 p2 n_ nvdim unit_ vals norm0 v0 ops o,
+  check_C15 (CHist p1 p2 n_ nvdim unit_ vals norm0 v0 ops (Some o)) = true ->
+  approx_of norm0 ops = false ->
+  o_orient_nvdim o = nvdim /\ o_orient_valid o = o_valid o /\
+  Forall2 (fun (v : list Qc) (oc : list Q) =>
+             (qc_close0 (qc_nrm v) = true -> Forall (fun b => b == 0) oc) /\
+             (qc_close0 (qc_nrm v) = false ->
+              exists u : list Qc, sumsq QcOps u = f1 QcOps /\ scale_cell (K:=QcOps) (qc_nrm v) u = v /\
+                                  cell_within tolx u oc))
+          (map qcl (cells_of nvdim (o_arr o))) (cells_of nvdim (o_orient o)).
+Proof. exact accepted_orientation. Qed.
+Print Assumptions C15_accepted_orientation.
+
+(* non-vacuity: recorded cases the checker accepts *)
+Example C15_accepted_history_instance :
+  check_C15 (CHist [(0 # 1)] [(2 # 1)] [2%Z] 1%nat (Some "T"%string) [(0 # 1); (3 # 1)]
+               (Some (SConst (5 # 1))) VNorm []
+               (Some (mkObs [(0 # 1); (5 # 1)] [false; true] [(0 # 1); (5 # 1)] 1%nat [2%Z] [(0 # 1)] [(2 # 1)]
+                            (Some "T"%string) [false; true] [(0 # 1); (1 # 1)] 1%nat [false; true]))) = true.
+Proof. exact accepted_hist_instance. Qed.
+Print Assumptions C15_accepted_history_instance.
+
+Example C15_accepted_not_sticky_instance :
+  check_C15 (CHist [(27 # 4)] [(29 # 4)] [1%Z] 1%nat (Some "T"%string) [((-50) # 1)] None VNorm
+               ([PSetNorm (SConst (3 # 524288)); PWrite (WSlice 0%nat 1%nat [((-33) # 1)])] ++ [PUpdate [(1664 # 1)]])
+               (Some (mkObs [(1664 # 1)] [true] [(1664 # 1)] 1%nat [1%Z] [(27 # 4)] [(29 # 4)]
+                            (Some "T"%string) [true] [(1 # 1)] 1%nat [true]))) = true.
+Proof. exact accepted_not_sticky_instance. Qed.
+Print Assumptions C15_accepted_not_sticky_instance.
+
+Example C15_accepted_constructor_validity_instance :
+  check_C15 (CHist [((-59) # 4)] [((-27) # 2)] [2%Z] 1%nat None [(0 # 1); (10 # 1)] None VNorm []
+               (Some (mkObs [(0 # 1); (10 # 1)] [false; true] [(0 # 1); (10 # 1)] 1%nat [2%Z] [((-59) # 4)] [((-27) # 2)]
+                            None [false; true] [(0 # 1); (1 # 1)] 1%nat [false; true]))) = true.
+Proof. exact accepted_constructor_validity_instance. Qed.
+Print Assumptions C15_accepted_constructor_validity_instance.
+
+Example C15_accepted_relational_instance :
+  check_C15 (CRel 3%nat [(0 # 1); (0 # 1); (0 # 1)] [(2670395447938201 # 590295810358705651712)] [(0 # 1)]
+                  [(0 # 1); (0 # 1); (0 # 1)] [(0 # 1); (0 # 1); (0 # 1)]) = true.
+Proof. exact accepted_rel_instance. Qed.
+Print Assumptions C15_accepted_relational_instance.
+Close Scope Q_scope.
